@@ -804,7 +804,8 @@ def write_pam(matrix, matrix_size, out, scale=1, border=None, dark='#000', light
     transparency = False
     stroke_color = _color_to_rgb_or_rgba(dark, alpha_float=False)
     bg_color = _color_to_rgb_or_rgba(light, alpha_float=False) if light is not None else None
-    colored_stroke = not (_color_is_black(stroke_color) or _color_is_white(stroke_color))
+    # A stroke color with an alpha channel needs the RGB_ALPHA tuple type even if it is black or white
+    colored_stroke = len(stroke_color) == 4 or not (_color_is_black(stroke_color) or _color_is_white(stroke_color))
     if bg_color is None:
         tuple_type = 'GRAYSCALE_ALPHA' if not colored_stroke else 'RGB_ALPHA'
         transparency = True
